@@ -496,6 +496,21 @@ def wl_history(ctx, idx, rng):
                     r.read(L, 5)
                 except Exception:
                     pass
+            if hasattr(r, "lower_sideband") and hasattr(r, "_in_sample_shape") and rng.random() < 0.3:
+                # a refused assignment (mask of the wrong shape) must leave the reader as it was
+                shp = tuple(r._in_sample_shape)
+                bad = np.ones(shp + (2,), dtype=bool) if (not shp or rng.random() < 0.5) else np.bool_(True)
+                ctx.count("history[refused_sideband_assignment]")
+                try:
+                    r.lower_sideband = bad
+                except ValueError:
+                    pass
+                except Exception as e:
+                    ctx.violation(o_, f"{fx.name}: lower_sideband = mask of shape {np.shape(bad)} raised {type(e).__name__}, expected ValueError",
+                                  None, {"what": "setter_exc_type"})
+                else:
+                    ctx.violation(o_, f"{fx.name}: lower_sideband = mask of shape {np.shape(bad)} (stream sample shape {shp}) was accepted",
+                                  None, {"what": "setter_accepted"})
     elif mode == "threads":
         nthreads = int(gen.pick(rng, [2, 4, 8, 16, 32]))
         per = 6
